@@ -363,6 +363,284 @@ theorem cstep_inv (val : Fp → Val) (fp : Thread → Fp) (s : CState) (t : Thre
       · simp [e] at h; exact hD t' v h
   | done w => exact ⟨hI, hD⟩
 
+/-! ### a thread run alone -/
+
+/-- runtime objects thread `t` can name independently of the other threads: its own creations and
+    the objects that existed in the start state `s0` -/
+def Own (s0 : State) (t : Thread) (r : Id) : Prop := r.1 = t ∨ r.2 < s0.next r.1
+
+/-- the objects an operation names explicitly -/
+def opIds : Op → List Id
+  | .derive r _ => [r]
+  | .enter r => [r]
+  | .exit r => [r]
+  | _ => []
+
+/-- everything reachable from the slice (current runtime, saved runtimes) is `Own` -/
+def ClosedSlice (s0 : State) (t : Thread) (sl : Slice) : Prop :=
+  (∀ r, sl.cur = some r → Own s0 t r) ∧ (∀ r' r, some r ∈ sl.entered r' → Own s0 t r)
+
+/-- relation between the interleaved run (`a`) and the run of `t` alone (`b`) -/
+structure Rel (s0 : State) (t : Thread) (a b : State) : Prop where
+  slice : Threads.slice a t = Threads.slice b t
+  defaults : a.defaults = b.defaults
+  handlers : ∀ r, Own s0 t r → (a.objs r).handlers = (b.objs r).handlers
+  closed : ClosedSlice s0 t (Threads.slice a t)
+  nextA : ∀ t', s0.next t' ≤ a.next t'
+
+theorem step_defaults_of (s : State) (t : Thread) (o : Op) (h : ∀ ty hh, o ≠ .registerDefault ty hh) :
+    (step s t o).1.defaults = s.defaults := by
+  cases o with
+  | registerDefault ty hh => exact absurd rfl (h ty hh)
+  | exit r => simp only [step]; split <;> rfl
+  | inherit p => simp only [step]; split <;> rfl
+  | _ => simp [step]
+
+theorem step_defaults_congr (a b : State) (t : Thread) (o : Op) (h : a.defaults = b.defaults) :
+    (step a t o).1.defaults = (step b t o).1.defaults := by
+  cases o with
+  | registerDefault ty hh => simp [step, h]
+  | exit r => simp only [step]; split <;> split <;> exact h
+  | inherit p => simp only [step]; split <;> split <;> exact h
+  | _ => simp [step, h]
+
+theorem alloc_next_mono (s : State) (t : Thread) (hs : Table) (t' : Thread) :
+    s.next t' ≤ (alloc s t hs).1.next t' := by
+  simp only [alloc_next, upd_apply]; split
+  · rename_i e; rw [e]; exact Nat.le_succ _
+  · exact Nat.le_refl _
+
+theorem current_next_mono (s : State) (t t' : Thread) : s.next t' ≤ (current s t).1.next t' := by
+  unfold current; split
+  · exact Nat.le_refl _
+  · exact alloc_next_mono s t s.defaults t'
+
+theorem step_next_mono (s : State) (t : Thread) (o : Op) (t' : Thread) :
+    s.next t' ≤ (step s t o).1.next t' := by
+  cases o with
+  | current => exact current_next_mono s t t'
+  | new hs => exact alloc_next_mono s t _ t'
+  | derive r hs => exact alloc_next_mono s t _ t'
+  | handleCur hs => exact Nat.le_trans (current_next_mono s t t') (alloc_next_mono _ t _ t')
+  | enter r => exact Nat.le_refl _
+  | exit r => simp only [step]; split <;> exact Nat.le_refl _
+  | registerDefault ty hh => exact Nat.le_refl _
+  | run ty => exact current_next_mono s t t'
+  | inherit p =>
+    simp only [step]; split
+    · exact Nat.le_refl _
+    · exact alloc_next_mono s t s.defaults t'
+
+theorem alloc_handlers_of (s : State) (t : Thread) (hs : Table) (r : Id) (h : r.1 = t → r.2 < s.next t) :
+    ((alloc s t hs).1.objs r).handlers = (s.objs r).handlers := by
+  rw [alloc_handlers]
+  split
+  · rename_i e; subst e; exact absurd (h rfl) (Nat.lt_irrefl _)
+  · rfl
+
+theorem current_handlers_of (s : State) (t : Thread) (r : Id) (h : r.1 = t → r.2 < s.next t) :
+    ((current s t).1.objs r).handlers = (s.objs r).handlers := by
+  unfold current; split
+  · rfl
+  · exact alloc_handlers_of s t s.defaults r h
+
+/-- a step of thread `t` leaves alone the handler table of every object that is not one of the
+    names `t` is about to allocate -/
+theorem step_handlers_of (s : State) (t : Thread) (o : Op) (r : Id) (h : r.1 = t → r.2 < s.next t) :
+    ((step s t o).1.objs r).handlers = (s.objs r).handlers := by
+  cases o with
+  | current => exact current_handlers_of s t r h
+  | new hs => exact alloc_handlers_of s t _ r h
+  | derive r' hs => exact alloc_handlers_of s t _ r h
+  | handleCur hs =>
+    simp only [step]
+    rw [alloc_handlers_of _ t _ r (fun e => Nat.lt_of_lt_of_le (h e) (current_next_mono s t t)),
+        current_handlers_of s t r h]
+  | enter r' =>
+    by_cases e : r = r'
+    · subst e; simp [step]
+    · simp [step, e]
+  | exit r' =>
+    simp only [step]; split
+    · rfl
+    · by_cases e : r = r'
+      · subst e; simp
+      · simp [e]
+  | registerDefault ty hh => rfl
+  | run ty => exact current_handlers_of s t r h
+  | inherit p =>
+    simp only [step]; split
+    · rfl
+    · exact alloc_handlers_of s t s.defaults r h
+
+/-- a step of another thread (not a registration of a default) keeps the relation -/
+theorem rel_other (s0 : State) (t : Thread) (a b : State) (t' : Thread) (o : Op) (R : Rel s0 t a b)
+    (hne : t' ≠ t) (hreg : ∀ ty hh, o ≠ .registerDefault ty hh) : Rel s0 t (step a t' o).1 b := by
+  have hs := step_slice_other a t' t o (fun e => hne e.symm)
+  refine ⟨by rw [hs]; exact R.slice, by rw [step_defaults_of a t' o hreg]; exact R.defaults, ?_,
+          by rw [hs]; exact R.closed, fun t'' => Nat.le_trans (R.nextA t'') (step_next_mono a t' o t'')⟩
+  intro r hr
+  rw [step_handlers_of a t' o r ?_]
+  · exact R.handlers r hr
+  · intro e
+    cases hr with
+    | inl h1 => exact absurd (h1.symm.trans e) (fun x => hne x.symm)
+    | inr h2 => rw [e] at h2; exact Nat.lt_of_lt_of_le h2 (R.nextA t')
+
+theorem lstep_congr (t : Thread) (e1 e2 : Shared) (o : Op) (sl : Slice) (hd : e1.defaults = e2.defaults)
+    (hh : ∀ r, sl.cur = some r → e1.handlers r = e2.handlers r) :
+    lstep t e1 (.op o) sl = lstep t e2 (.op o) sl := by
+  cases o with
+  | run ty =>
+    simp only [lstep]
+    cases hc : sl.cur with
+    | none => simp [hd]
+    | some r => simp [hd, hh r hc]
+  | _ => rfl
+
+theorem own_of_self (s0 : State) (t : Thread) (n : Nat) : Own s0 t (t, n) := Or.inl rfl
+
+theorem lstep_closed (s0 : State) (t : Thread) (e : Shared) (o : Op) (sl : Slice)
+    (hc : ClosedSlice s0 t sl) (hids : ∀ r ∈ opIds o, Own s0 t r) :
+    ClosedSlice s0 t (lstep t e (.op o) sl).1 := by
+  obtain ⟨h1, h2⟩ := hc
+  cases o with
+  | current =>
+    simp only [lstep]; split
+    · exact ⟨h1, h2⟩
+    · exact ⟨fun r hr => by simp at hr; subst hr; exact own_of_self s0 t _, h2⟩
+  | new hs => exact ⟨h1, h2⟩
+  | derive r hs => exact ⟨h1, h2⟩
+  | handleCur hs =>
+    simp only [lstep]; split
+    · exact ⟨h1, h2⟩
+    · exact ⟨fun r hr => by simp at hr; subst hr; exact own_of_self s0 t _, h2⟩
+  | enter r =>
+    simp only [lstep]
+    refine ⟨fun r' hr => by simp at hr; subst hr; exact hids r (by simp [opIds]), ?_⟩
+    intro r' x hx
+    by_cases e : r' = r
+    · subst e
+      simp at hx
+      cases hx with
+      | inl h => exact h1 x h.symm
+      | inr h => exact h2 r' x h
+    · simp [e] at hx; exact h2 r' x hx
+  | exit r =>
+    simp only [lstep]
+    cases hent : sl.entered r with
+    | nil => exact ⟨h1, h2⟩
+    | cons p rest =>
+      simp only
+      refine ⟨fun x hx => h2 r x (by simp at hx; rw [hent, hx]; simp), ?_⟩
+      intro r' x hx
+      by_cases e : r' = r
+      · subst e
+        simp at hx
+        exact h2 r' x (by rw [hent]; simp [hx])
+      · simp [e] at hx; exact h2 r' x hx
+  | registerDefault ty hh => exact ⟨h1, h2⟩
+  | run ty =>
+    simp only [lstep]; split
+    · exact ⟨h1, h2⟩
+    · exact ⟨fun r hr => by simp at hr; subst hr; exact own_of_self s0 t _, h2⟩
+  | inherit p => exact ⟨h1, h2⟩
+
+theorem toLOp_of_not_inherit (s : State) (o : Op) (h : ∀ p, o ≠ .inherit p) : toLOp s o = .op o := by
+  cases o with
+  | inherit p => exact absurd rfl (h p)
+  | _ => rfl
+
+/-- after a step of `t` itself, the handler tables of `Own` objects agree in the two runs -/
+theorem own_step_handlers (s0 : State) (t : Thread) (a b : State) (o : Op) (R : Rel s0 t a b)
+    (hids : ∀ r ∈ opIds o, Own s0 t r) (hinh : ∀ p, o ≠ .inherit p) (r : Id) (hr : Own s0 t r) :
+    ((step a t o).1.objs r).handlers = ((step b t o).1.objs r).handlers := by
+  have hcur : a.cur t = b.cur t := congrArg Slice.cur R.slice
+  have hnext : a.next t = b.next t := congrArg Slice.next R.slice
+  have hd := R.defaults
+  have hH := R.handlers
+  have hcl : ∀ c, b.cur t = some c → Own s0 t c := fun c hc => R.closed.1 c (by simp [Threads.slice, hcur, hc])
+  cases o with
+  | inherit p => exact absurd rfl (hinh p)
+  | current =>
+    simp only [step, current, hcur]
+    cases hc : b.cur t with
+    | some c => exact hH r hr
+    | none => simp only [alloc_handlers, hnext, hd, hH r hr]
+  | new hs => simp only [step, alloc_handlers, hnext, hd, hH r hr]
+  | derive r' hs =>
+    simp only [step, alloc_handlers, hnext, hd, hH r hr, hH r' (hids r' (by simp [opIds]))]
+  | handleCur hs =>
+    simp only [step, current, hcur]
+    cases hc : b.cur t with
+    | some c => simp only [alloc_handlers, hnext, hd, hH r hr, hH c (hcl c hc)]
+    | none =>
+      simp only [alloc_handlers, alloc_next, alloc_defaults, upd_same, hnext, hd, hH r hr, if_true]
+  | enter r' =>
+    by_cases e : r = r'
+    · subst e; simp [step, hH r hr]
+    · simp [step, e, hH r hr]
+  | exit r' =>
+    have hent : (a.objs r').entered t = (b.objs r').entered t :=
+      congrFun (congrArg Slice.entered R.slice) r'
+    simp only [step, hent]
+    cases (b.objs r').entered t with
+    | nil => exact hH r hr
+    | cons p rest =>
+      by_cases e : r = r'
+      · subst e; simp [hH r hr]
+      · simp [e, hH r hr]
+  | registerDefault ty hh => exact hH r hr
+  | run ty =>
+    simp only [step, current, hcur]
+    cases hc : b.cur t with
+    | some c => exact hH r hr
+    | none => simp only [alloc_handlers, hnext, hd, hH r hr]
+
+/-- a step of `t` itself keeps the relation and yields the same result in both runs -/
+theorem rel_own (s0 : State) (t : Thread) (a b : State) (o : Op) (R : Rel s0 t a b)
+    (hids : ∀ r ∈ opIds o, Own s0 t r) (hinh : ∀ p, o ≠ .inherit p) :
+    Rel s0 t (step a t o).1 (step b t o).1 ∧ (step a t o).2 = (step b t o).2 := by
+  have ha := step_slice_own a t o
+  have hb := step_slice_own b t o
+  rw [toLOp_of_not_inherit a o hinh] at ha
+  rw [toLOp_of_not_inherit b o hinh] at hb
+  have hl : lstep t (shared a) (.op o) (Threads.slice a t) = lstep t (shared b) (.op o) (Threads.slice b t) := by
+    rw [← R.slice]
+    exact lstep_congr t (shared a) (shared b) o _ R.defaults
+      (fun r hr => R.handlers r (R.closed.1 r hr))
+  refine ⟨⟨?_, step_defaults_congr a b t o R.defaults, own_step_handlers s0 t a b o R hids hinh, ?_,
+           fun t' => Nat.le_trans (R.nextA t') (step_next_mono a t o t')⟩, ?_⟩
+  · rw [ha.1, hb.1, hl]
+  · rw [ha.1]; exact lstep_closed s0 t (shared a) o _ R.closed hids
+  · rw [ha.2, hb.2, hl]
+
+/-- Run alone: the steps of the other threads can be deleted from the interleaving without changing
+    anything `t` observes. -/
+theorem alone_view (s0 : State) (t : Thread) (sched : Sched) : ∀ (a b : State), Rel s0 t a b →
+    (∀ t' o, (t', o) ∈ sched → t' ≠ t → ∀ ty hh, o ≠ .registerDefault ty hh) →
+    (∀ o, (t, o) ∈ sched → (∀ p, o ≠ .inherit p) ∧ ∀ r ∈ opIds o, Own s0 t r) →
+    obsOf t (runSched sched a).2 = obsOf t (runSched (sched.filter (fun st => st.1 == t)) b).2 := by
+  induction sched with
+  | nil => intro a b R h1 h2; rfl
+  | cons hd rest ih =>
+    intro a b R h1 h2
+    obtain ⟨t', o⟩ := hd
+    have h1' : ∀ t'' o', (t'', o') ∈ rest → t'' ≠ t → ∀ ty hh, o' ≠ .registerDefault ty hh :=
+      fun t'' o' hm => h1 t'' o' (List.mem_cons_of_mem _ hm)
+    have h2' : ∀ o', (t, o') ∈ rest → (∀ p, o' ≠ .inherit p) ∧ ∀ r ∈ opIds o', Own s0 t r :=
+      fun o' hm => h2 o' (List.mem_cons_of_mem _ hm)
+    by_cases e : t' = t
+    · subst e
+      have hh := h2 o (List.mem_cons_self)
+      have R' := rel_own s0 t' a b o R hh.2 hh.1
+      simp only [List.filter, beq_self_eq_true, runSched, obsOf, if_true]
+      rw [R'.2, ih _ _ R'.1 h1' h2']
+    · have R' := rel_other s0 t a b t' o R e (h1 t' o (List.mem_cons_self) e)
+      have hf : (t' == t) = false := by simp [e]
+      simp only [List.filter, hf, runSched, obsOf, if_neg e]
+      exact ih _ _ R' h1' h2'
+
 end lemmas
 
 end Labrea.Threads
